@@ -60,11 +60,13 @@ def fcn_expected(st, ag, m, g):
     mp = MP(m.term, t)
     tw = z3.If(t <= R("time_window_size"), t, R("time_window_size"))
     mx = lambda x: z3.If(x >= 1, x, 1)
-    F = (1 / z3.ToReal(mx(R("mean_reversion_time")))) * LOG(FP(m.term) / mp)
-    C = (1 / z3.ToReal(mx(tw))) * LOG(mp / MP(m.term, t - tw))
+    div = lambda a_, b_: RDIV(a_, b_)            # rdiv(a, b) is real division a / b (defining instance rdiv(a,b) * b == a supplied by the engine at each `/`)
+    one = z3.RealVal(1)
+    F = div(one, z3.ToReal(mx(R("mean_reversion_time")))) * LOG(div(FP(m.term), mp))
+    C = div(one, z3.ToReal(mx(tw))) * LOG(div(mp, MP(m.term, t - tw)))
     N = R("noise_scale") * g
-    sign = z3.If(st.read(ag, "is_chart_following").term, 1, -1)
-    ret = (1 / (R("fundamental_weight") + R("chart_weight") + R("noise_weight"))) * (R("fundamental_weight") * F + R("chart_weight") * C * sign + R("noise_weight") * N)
+    sign = z3.If(st.read(ag, "is_chart_following").term, z3.RealVal(1), z3.RealVal(-1))
+    ret = div(one, R("fundamental_weight") + R("chart_weight") + R("noise_weight")) * (R("fundamental_weight") * F + R("chart_weight") * C * sign + R("noise_weight") * N)
     return mp * EXP(ret * z3.ToReal(R("time_window_size"))), mp
 
 
